@@ -506,6 +506,15 @@ impl Runner {
     pub fn is_sampled(&self) -> bool {
         matches!(self, Runner::Sampled(..))
     }
+    /// A clone of this (possibly used) formatter; `None` for a sampling formatter, which is not
+    /// `Clone`. A clone must behave like a formatter of the same configuration, whatever the
+    /// original had formatted before.
+    pub fn clone_used(&self) -> Option<Runner> {
+        match self {
+            Runner::Plain(emf) => Some(Runner::Plain(emf.clone())),
+            Runner::Sampled(..) => None,
+        }
+    }
 }
 
 /// One-shot: fresh formatter from `pristine`, format one entry.
